@@ -267,6 +267,7 @@ Proof.
   - destruct (slookup path (fields d)); [|discriminate]. inversion H; subst. exact Hd.
   - inversion H; subst. exact Hd.
   - inversion H; subst. exact Hd.
+  - inversion H; subst. exact Hd.
 Qed.
 
 Lemma run_good ops : forall d d', Good d -> Forall arg_good ops -> run all_off d ops = Some d' -> Good d'.
